@@ -74,6 +74,17 @@ def generate(tier, seed):
                 hi_v = hi if typ[1] == "c" else hi - 1e-3
                 for v in (lo_v, lo_v + 1e-3, hi_v):
                     plist.append((f"{a}={v:g}", {a: v}, None))
+            # "round" parameter values (integers, half-integers): closed-form shortcuts of a model live exactly there
+            if cfg == "plain" or tier == "thorough":
+                for a, b in bnds.items():
+                    typ = b[2] if len(b) > 2 else "cc"
+                    for v in common.SPECIAL_VALUES.get(a, []):
+                        inside = (v > b[0] or (v == b[0] and typ[0] == "c")) and (v < b[1] or (v == b[1] and typ[1] == "c"))
+                        if inside and not (name in ("Stable", "TPLStable") and a == "alpha" and v < 0.3) and (tier == "thorough" or rng.random() < 0.5):
+                            o = {a: v}
+                            if name == "TPLStable" and a == "alpha":
+                                o["hurst"] = min(0.5, 0.45 * v)
+                            plist.append((f"{a}={v:g}(round)", o, None))
             if "len_low" in bnds:
                 for resc in (None, 0.5, 3.0):
                     plist.append((f"len_low=1.5,rescale={resc}", {"len_low": 1.5}, resc))
@@ -84,7 +95,9 @@ def generate(tier, seed):
                 plist.append(("interior", common.draw_opt(rng, name, dim, "interior"), None))
             for tag, opt, resc in plist:
                 c = {"name": name, "cfg": cfg, "dim": dim, "opt": opt, "tag": tag, "rescale": resc}
-                if cfg in ("plain", "spacetime"):
+                # lat-lon(+time) models live in dimension 3 (4) through the chordal distance: that is the dimension the model reports
+                # and in which it must have been accepted; scanned for the default and the drawn parameter sets
+                if cfg in ("plain", "spacetime") or tag in ("default", "interior"):
                     cases.append(("spectrum", dict(c)))
                 cases.append(("matrices", dict(c, cseed=int(rng.integers(1 << 30)), n={"quick": 60, "thorough": 160}[tier])))
     for name in ("JBessel", "SuperSpherical", "TPLSimple"):
